@@ -39,7 +39,8 @@ REPO_SRC = os.environ.get("VERIF_REPO_SRC", "/repo/src")
 class Clock:
     """Virtual time source shared by everything in one execution."""
 
-    __slots__ = ("now", "wall_hook", "sleep_hook", "frac", "rand_calls", "utcnow", "global_rng")
+    __slots__ = ("now", "wall_hook", "sleep_hook", "frac", "rand_calls", "utcnow", "global_rng",
+                 "async_sleep_hook")
 
     def __init__(self):
         self.now = T0
@@ -49,6 +50,7 @@ class Clock:
         self.rand_calls = 0
         self.utcnow = None      # owned datetime for redress.extras.http
         self.global_rng = False  # draws come from the (re-seeded) process-global random stream
+        self.async_sleep_hook = None  # callable(seconds) -> awaitable replacing asyncio.sleep
 
 
 CLOCK = Clock()
@@ -107,6 +109,9 @@ def advance(seconds) -> None:
 
 async def v_asyncio_sleep(delay, result=None):
     c = CLOCK
+    if c.async_sleep_hook is not None:
+        await c.async_sleep_hook(delay)   # really suspends (virtual loop): asyncio.sleep(0) yields
+        return result
     if c.sleep_hook is not None:
         r = c.sleep_hook(delay)
         if hasattr(r, "__await__"):
